@@ -10,14 +10,15 @@ import (
 // scripts are programmatic nemeses: they react to the state of the cluster
 // (who is leader) instead of following a fixed timetable.
 var scripts = map[string]func(rn *Runner){
-	"fig8x":     scriptFig8x,
-	"cfgtrunc":  scriptCfgTrunc,
-	"snapcfg":   scriptSnapCfg,
-	"xfervote":  scriptXferVote,
-	"snapterm":  scriptSnapTerm,
-	"cfggate":   scriptCfgGate,
-	"longstale": scriptLongStale,
-	"cfgquorum": scriptCfgQuorum,
+	"fig8x":       scriptFig8x,
+	"cfgtrunc":    scriptCfgTrunc,
+	"snapcfg":     scriptSnapCfg,
+	"xfervote":    scriptXferVote,
+	"snapterm":    scriptSnapTerm,
+	"cfggate":     scriptCfgGate,
+	"longstale":   scriptLongStale,
+	"notifyblock": scriptNotifyBlock,
+	"cfgquorum":   scriptCfgQuorum,
 }
 
 func (rn *Runner) el() time.Duration {
@@ -579,4 +580,34 @@ func scriptLongStale(rn *Runner) {
 	rn.tailDown[B] = true
 	c.Net.Heal()
 	time.Sleep(2 * rn.el())
+}
+
+// scriptNotifyBlock: the leader is cut off; the first of the others to win sits in runLeader
+// delivering `true` to a NotifyCh consumer that takes several election timeouts, so it sends
+// nothing; the third server times out in turn and, once the old leader is back to vote, wins a
+// later term and deposes the blocked one through the heartbeat fast path.
+func scriptNotifyBlock(rn *Runner) {
+	c := rn.C
+	for round := 0; round < 4; round++ {
+		L := rn.waitLeader(nil, 40)
+		if L == nil {
+			return
+		}
+		time.Sleep(2 * rn.el())
+		if L = rn.waitLeader(nil, 40); L == nil {
+			return
+		}
+		rn.applyBurst(L, 1+rn.rng.Intn(2), "n")
+		time.Sleep(rn.el() / 2)
+		rn.cutOff(L)
+		N := rn.waitNewLeader(L, nil, 20*rn.Sc.P.ElectionMs)
+		if N == nil {
+			c.Net.Heal()
+			continue
+		}
+		rn.note("N=%s elected, its notification is still being delivered", N.name)
+		time.Sleep(rn.el() / 2)
+		c.Net.Heal() // the old leader can vote again
+		time.Sleep(time.Duration(rn.Sc.P.NotifyDelayMs)*time.Millisecond + 3*rn.el())
+	}
 }
